@@ -13,6 +13,9 @@ package main
 //@   ensures result1 == nil ==> exists i int :: 0 <= i && i < chanlen(results) && chanat(results, i).err == nil && chanat(results, i).val == result0
 //@   ensures (exists i int :: 0 <= i && i < chanlen(results) && i < len(fns) && chanat(results, i).err == nil) ==> result1 == nil
 //@   ensures result1 != nil ==> forall i int :: 0 <= i && i < chanlen(results) && i < len(fns) ==> chanat(results, i).err != nil
+//@   # the basis of the trusted concurrency row (no job ever blocks on its send, so the search ends for ANY limit): the result
+//@   # channel has room for one result per job
+//@   ensures chancap(results) >= len(fns)
 //@   loop 1 invariant len(errs) == rangeidx1 && (len(fns) > 0 ==> len(errs) < len(fns))
 //@   loop 1 invariant forall i int :: 0 <= i && i < rangeidx1 ==> chanat(results, i).err != nil
 //@   loop 1 decreases chanlen(results) - rangeidx1
